@@ -28,7 +28,7 @@ MULS = [Fraction(0), Fraction(1), Fraction(-1), Fraction(2), Fraction(-2), Fract
 ODD_MULS = [Fraction(3), Fraction(3, 2), Fraction(-3, 4), Fraction(5, 4)]
 POW2 = [Fraction(1, 4), Fraction(1, 2), Fraction(2), Fraction(4), Fraction(8), Fraction(-1),
         Fraction(-2), Fraction(-1, 2), Fraction(2), Fraction(4)]
-SHAPES = [(), (), (1,), (2,), (3,), (3,), (4,), (2, 2), (2, 3), (1, 2), (0,)]
+SHAPES = [(), (), (1,), (2,), (3,), (3,), (4,), (5,), (2, 2), (2, 3), (3, 2), (1, 2), (0,)]
 # dyadic unit families (registered in _units_once): (name, conversion is exact)
 FAM_A = ['m', 'omvl4', 'omvl8']          # pure factors 4, 1/8
 FAM_T = ['degK', 'omvt2', 'omvt4']       # factor and offset
@@ -127,6 +127,60 @@ def bc(v, n):
     if isinstance(v, list):
         return [unrat(x) for x in v]
     return [unrat(v)] * n
+
+
+def norm_pos(k, n):
+    """NumPy's reading of one integer index into a length-n axis; n (out of range) when invalid"""
+    if 0 <= k < n:
+        return k
+    if -n <= k < 0:
+        return n + k
+    return n + (k - n if k >= n else 0)
+
+
+def midx(idx, n):
+    """1-D index in harness form -> the model's Idx (full / clipped non-negative range / positions).
+    Negative entries and general slices are resolved the way NumPy documents them."""
+    if idx is None or idx[0] == 'r':
+        return idx
+    if idx[0] == 's':
+        return ['l', list(range(*slice(idx[1], idx[2], idx[3]).indices(n)))]
+    if idx[0] == 'i':
+        return ['l', [norm_pos(idx[1], n)]]
+    return ['l', [norm_pos(k, n) for k in idx[1]]]
+
+
+def py_index(c):
+    """one index component in harness form -> Python/NumPy index object"""
+    if c[0] == 'r':
+        return slice(c[1], c[2])
+    if c[0] == 's':
+        return slice(c[1], c[2], c[3])
+    if c[0] == 'i':
+        return c[1]
+    return list(c[1]) if len(c[1]) % 2 else np.array(c[1], dtype=int)
+
+
+def nd_index(op):
+    comps = [py_index(c) for c in op['I']]
+    return tuple(comps) if op['tuple'] else comps[0]
+
+
+def nd_resolve(shape, I, value):
+    """What NumPy makes of `a[I] = value` on an array of this shape, in flat terms:
+    (positions in selection order | None, values assigned by direct assignment | None)."""
+    size = shape_len(shape)
+    try:
+        pos = np.arange(size).reshape(shape)[I]
+    except Exception:
+        return None, None
+    sel = [int(x) for x in np.asarray(pos).ravel().tolist()]
+    scratch = np.zeros(shape, dtype=complex)
+    try:
+        scratch[I] = value
+    except Exception:
+        return sel, None
+    return sel, enc_arr(np.asarray(scratch[I]).ravel())
 
 
 # ------------------------------------------------------------------------------------------------
@@ -439,17 +493,23 @@ class OpGen:
         r = rng.random()
         if r < 0.45 or n == 0:
             return None
-        if r < 0.65:
+        if r < 0.58:
             a = rng.randrange(0, n + 1)
             b = rng.randrange(a, n + 2)         # may exceed n: NumPy clips
             return ['r', a, b]
+        if r < 0.68:
+            # general slice: negative bounds, steps (also negative), open ends
+            return ['s', rng.choice([None, None, rng.randrange(-n - 1, n + 2)]),
+                    rng.choice([None, None, rng.randrange(-n - 1, n + 2)]),
+                    rng.choice([None, 1, 2, 2, 3, -1, -2])]
+        neg = rng.random() < 0.4
         if r < 0.9:
             k = rng.randrange(0, min(n, 4) + 1)
-            ps = [rng.randrange(0, n) for _ in range(k)]   # duplicates allowed
+            ps = [rng.randrange(-n if neg else 0, n) for _ in range(k)]   # duplicates allowed
             if self.malformed and rng.random() < 0.3:
-                ps.append(n + rng.randrange(0, 3))
+                ps.append(rng.choice([n + rng.randrange(0, 3), -n - 1 - rng.randrange(0, 2)]))
             return ['l', ps]
-        return ['i', rng.randrange(0, n)]
+        return ['i', rng.randrange(-n if neg else 0, n)]
 
     @staticmethod
     def idx_count(idx, n):
@@ -457,6 +517,8 @@ class OpGen:
             return n
         if idx[0] == 'r':
             return max(0, min(idx[2], n) - min(idx[1], n))
+        if idx[0] == 's':
+            return len(range(*slice(idx[1], idx[2], idx[3]).indices(n)))
         if idx[0] == 'l':
             return len(idx[1])
         return 1
@@ -623,6 +685,8 @@ class OpGen:
         idx = self.idx(n) if flat else None
         if idx is not None and idx[0] == 'i':
             idx = ['l', [idx[1]]]
+        if idx is not None and idx[0] == 's' and idx[3] is not None and idx[3] < 0:
+            idx[3] = -idx[3]       # flat Indexer of a negative-step slice is outside this check
         vals, scalar = self.vals(v, self.idx_count(idx, n))
         how = 'setitem' if (not flat and idx is None and rng.random() < 0.5) else 'set_var'
         return {'api': 'set_var', 'v': v, 'name': self.rel(v, name), 'vals': vals, 'scalar': scalar,
